@@ -155,6 +155,15 @@ def make_objects(spec, cfg_dt_src):
             else:
                 cons += [o.same_size(vol, axes=tr), o.place_at_center(vol, axes=tr),
                          o.set_grid_coordinates(axes=(ax,), sides=("-",), coordinates=(int(s["pos"]),))]
+        elif s["kind"] == "mode":
+            ax = int(s["axis"])
+            pgs = [None, None, None]
+            pgs[ax] = 1
+            o = fdtdx.ModePlaneSource(partial_grid_shape=tuple(pgs), direction=s.get("dir", "+"), mode_index=int(s.get("mode_index", 0)),
+                                      filter_pol=s.get("filter_pol"), **common)
+            tr = tuple(a for a in range(3) if a != ax)
+            cons += [o.same_size(vol, axes=tr), o.place_at_center(vol, axes=tr),
+                     o.set_grid_coordinates(axes=(ax,), sides=("-",), coordinates=(int(s["pos"]),))]
         elif s["kind"] == "dipole":
             o = fdtdx.PointDipoleSource(partial_grid_shape=(1, 1, 1), polarization=int(s.get("pol", 0)),
                                         source_type="magnetic" if s.get("mag") else "electric",
